@@ -50,7 +50,7 @@ fn source(u: &mut Unstructured, owning_only: bool) -> Source {
             11 => Source::Range { start: u.int_in_range(0..=40u16).unwrap_or(0) },
             12 => Source::RangeIter { start: u.int_in_range(0..=40u16).unwrap_or(0) },
             13 => Source::ClonedSlice,
-            14 => Source::ParCloned,
+            14 => if by_ref { Source::ParCloned } else { Source::NestedCloned },
             _ => Source::Coll { kind, by_ref },
         }
     }
